@@ -122,7 +122,7 @@ theorem cronNext_some_iff (f : Cron.Fields) (c prev r : Int) :
 
 /-- on a fixed-offset location the trigger's error is exactly "expired" (never "out of fuel") -/
 theorem cronNext_none_iff (f : Cron.Fields) (hwf : Cron.WellFormed f = true) (c prev : Int)
-    (hc : -100000 ≤ c ∧ c ≤ 100000) (hp : 0 ≤ prev) :
+    (hc : -100000 ≤ c ∧ c ≤ 100000) (hp : -9223372036854775808 ≤ prev) :
     cronNext f c prev = none ↔ Cron.nextFire {} f (Cron.fixedZone c) prev = .expired := by
   obtain ⟨nw, _, hnf⟩ := Cron.nextFire_fixed f hwf c prev hc hp
   unfold cronNext
@@ -132,20 +132,20 @@ theorem cronNext_none_iff (f : Cron.Fields) (hwf : Cron.WellFormed f = true) (c 
 
 /-- C01 for the trigger object -/
 theorem cronNext_sound (f : Cron.Fields) (hwf : Cron.WellFormed f = true) (c prev : Int)
-    (hc : -100000 ≤ c ∧ c ≤ 100000) (hp : 0 ≤ prev) (r : Int) (h : cronNext f c prev = some r) :
+    (hc : -100000 ≤ c ∧ c ≤ 100000) (hp : -9223372036854775808 ≤ prev) (r : Int) (h : cronNext f c prev = some r) :
     r % 1000000000 = 0 ∧ prev < r ∧ Cron.Matches f (Cal.Civil.ofSeconds (r / 1000000000 + c)) :=
   Cron.C01_sound f hwf c prev hc hp r ((cronNext_some_iff f c prev r).mp h)
 
 /-- C02 (minimality) for the trigger object -/
 theorem cronNext_minimal (f : Cron.Fields) (hwf : Cron.WellFormed f = true) (c prev : Int)
-    (hc : -100000 ≤ c ∧ c ≤ 100000) (hp : 0 ≤ prev) (r : Int) (h : cronNext f c prev = some r) :
+    (hc : -100000 ≤ c ∧ c ≤ 100000) (hp : -9223372036854775808 ≤ prev) (r : Int) (h : cronNext f c prev = some r) :
     ∀ u : Int, prev < u → u < r → u % 1000000000 = 0 →
       ¬ Cron.Matches f (Cal.Civil.ofSeconds (u / 1000000000 + c)) :=
   Cron.C02_minimal f hwf c prev hc hp r ((cronNext_some_iff f c prev r).mp h)
 
 /-- C02 (expiry) for the trigger object: the error answer means that no matching instant is left -/
 theorem cronNext_none_iff_no_match (f : Cron.Fields) (hwf : Cron.WellFormed f = true) (c prev : Int)
-    (hc : -100000 ≤ c ∧ c ≤ 100000) (hp : 0 ≤ prev) :
+    (hc : -100000 ≤ c ∧ c ≤ 100000) (hp : -9223372036854775808 ≤ prev) :
     cronNext f c prev = none ↔
       ¬ ∃ u : Int, prev < u ∧ u % 1000000000 = 0 ∧
         Cron.Matches f (Cal.Civil.ofSeconds (u / 1000000000 + c)) := by
@@ -167,7 +167,7 @@ theorem chain_succ_none (f : Cron.Fields) (c prev : Int) (k : Nat) (h : cronNext
 /-- C01 + C02 along the chain -/
 theorem chain_noSkip (f : Cron.Fields) (hwf : Cron.WellFormed f = true) (c : Int)
     (hc : -100000 ≤ c ∧ c ≤ 100000) (k : Nat) :
-    ∀ prev : Int, 0 ≤ prev → NoSkip f c prev (chain f c prev k) := by
+    ∀ prev : Int, -9223372036854775808 ≤ prev → NoSkip f c prev (chain f c prev k) := by
   induction k with
   | zero => intro prev _; exact .nil prev
   | succ k ih =>
@@ -281,7 +281,7 @@ theorem kind_cron {thr : Int} {s s' : SState} {ev : Ev} {o : Obs} (hwf : WF s)
     rcases kind_active hwf hk x hx hxs with ⟨pv, hcl⟩ | ⟨h1, _⟩
     · obtain ⟨h0, hres, _⟩ := hcalls _ hcl hxt
       have h0' : 0 ≤ pv := h0
-      have := (cronNext_sound f hwff c pv hc h0' x.prio hres.symm).2.1
+      have := (cronNext_sound f hwff c pv hc (by omega) x.prio hres.symm).2.1
       omega
     · exact hI.prio x h1 hxt hxs
 
@@ -435,9 +435,30 @@ theorem schedule_cronInv (thr : Int) (s : SState) (hwf : WF s) (now : Int) (h0 :
     intro x hx hxt hxs
     have : x = a.entry p := hwf'.tags x hx _ hmem hxt
     rw [this]
-    have := (cronNext_sound f hwff c now hc h0 p hp).2.1
+    have := (cronNext_sound f hwff c now hc (by omega) p hp).2.1
     show 0 ≤ p
     omega
+
+/-- the part of `schedule_cronInv` that needs nothing about the clock reading: after a successful
+`ScheduleJob` of a cron job the state is well formed and the stored trigger is `.cron f c` -/
+theorem schedule_cron_trig (thr : Int) (s : SState) (hwf : WF s) (now : Int) (a : SchedArgs)
+    (f : Cron.Fields) (c : Int)
+    (ha : a.trig = some (.cron f c)) (hfresh : AbsentTag a.tag s)
+    (hok : (schedule s now a).2.1 = none) :
+    WF (schedule s now a).1 ∧ (schedule s now a).1.trig a.tag = .cron f c := by
+  have hkind : Kind thr s (.schedule now a) (schedule s now a).1
+      { err := (schedule s now a).2.1, calls := (schedule s now a).2.2 } :=
+    apply_kind thr s hwf.wf0 (.schedule now a)
+  have hwf' : WF (schedule s now a).1 :=
+    kind_wf hwf (fun t ht e he => by injection ht with ht; subst ht; exact hfresh e he) hkind
+  refine ⟨hwf', ?_⟩
+  obtain ⟨t, p, ht, _, hcs, hmem, _⟩ := schedule_ok_facts s now a hwf.inv hok
+  rw [ha] at ht
+  injection ht with ht
+  subst ht
+  rcases hcs with ⟨hsu, _, htr, _⟩ | ⟨hsu, hp, htr, _⟩
+  · exact htr
+  · rw [htr, cron_fire_state]
 
 /-- **calls on a cron job's trigger, whole histories from the empty scheduler**: every call on the
 trigger object a `ScheduleJob` event of the history brought with `.cron f c` has an argument `≥ 0` and
@@ -629,7 +650,7 @@ answer for `pv` -/
 theorem cron_drift_aux (thr : Int) (t : Nat) (f : Cron.Fields) (hwff : Cron.WellFormed f = true)
     (c : Int) (hc : -100000 ≤ c ∧ c ≤ 100000) (evs : List Ev) :
     ∀ (s : SState) (x : Entry) (pv : Int), WF s → x ∈ s.q.toList → x.suspended = false → x.tag = t →
-      s.trig t = .cron f c → 0 ≤ pv → cronNext f c pv = some x.prio → OnlySteps evs →
+      s.trig t = .cron f c → -9223372036854775808 ≤ pv → cronNext f c pv = some x.prio → OnlySteps evs →
       NeverOutdated t (run thr s evs).2 →
       ∃ k : Nat,
         dispatchTimes t (run thr s evs).2 = chain f c pv k ∧ (chain f c pv k).length = k ∧
@@ -662,7 +683,7 @@ theorem cron_drift_aux (thr : Int) (t : Nat) (f : Cron.Fields) (hwff : Cron.Well
       fun o ho => hno o (List.mem_cons_of_mem _ ho)
     have hos2 : OnlySteps evs := fun ev hev => hos ev (List.mem_cons_of_mem _ hev)
     subst hxt
-    have hp0 : 0 ≤ x.prio := by
+    have hp0 : -9223372036854775808 ≤ x.prio := by
       have := (cronNext_sound f hwff c pv hc h0 x.prio hpv).2.1
       omega
     rcases cron_drift_step hwf hk x hx hxs f c htr hno1 with ⟨h1, h2, h3, h4⟩ |
